@@ -511,7 +511,7 @@ func init() {
 			"typed-map events iterate in random order: byte/event comparisons fall back to value comparison when only member order differs",
 		},
 		Suites: []*run.Suite{
-			{Name: "encoders", N: tierN(60000, 2000000), Case: c17Encoders, Require: []string{"encoder_histories_json", "encoder_histories_ubjson", "encoder_histories_cborl", "idle_depth_checks"}},
+			{Name: "encoders", N: tierN(60000, 2000000), Case: c17Encoders, Require: hookedReq([]string{"encoder_histories_json", "encoder_histories_ubjson", "encoder_histories_cborl"}, "idle_depth_checks")},
 			{Name: "parsers", N: tierN(60000, 2000000), Case: c17Parsers, Require: []string{"parser_histories_json", "parser_histories_ubjson", "parser_histories_cborl"}},
 			{Name: "decoders", N: tierN(60000, 2000000), Case: c17Decoders, Require: []string{"decoder_histories_json", "decoder_histories_ubjson", "decoder_histories_cborl"}},
 			{Name: "iterator", N: tierN(40000, 1200000), Case: c17Iterator, Require: []string{"iterator_histories", "iterator_probe_type_seen_before", "iterator_probe_type_new"}},
